@@ -33,7 +33,7 @@ WRITE_FLAGS = ("O_WRONLY", "O_RDWR", "O_CREAT", "O_TRUNC", "O_APPEND")
 
 
 def generate(tier, seed):
-    n = 500 if tier == "quick" else 25000
+    n = 500 if tier == "quick" else 50000
     per = 10
     return [{"k": k, "n": per} for k in range(n // per)]
 
